@@ -277,8 +277,9 @@ def run_unit(u: Unit, char: str, workroot: str, canary=False, keep=False, repo=N
         res.wall_s = time.time() - t0
         return res
     res.obligations = len(results)
-    fails = [r for r in results if r.get("status") != "SUCCESS"]
-    res.discharged = len(results) - len(fails)
+    fails = [r for r in results if r.get("status") == "FAILURE"]
+    unknown = [r for r in results if r.get("status") not in ("SUCCESS", "FAILURE")]
+    res.discharged = len(results) - len(fails) - len(unknown)
     res.loop_obligations = sum(1 for r in results if "loop_invariant" in r.get("property", "")
                                or "loop invariant" in r.get("description", "").lower()
                                or "loop_decreases" in r.get("property", "")
@@ -319,6 +320,9 @@ def run_unit(u: Unit, char: str, workroot: str, canary=False, keep=False, repo=N
         elif fails:
             res.status = "fail"
             res.failed = [f for f in res.failed if ".unwind." not in f["property"]]
+        elif unknown:
+            res.status = "undecided"
+            res.reason = "%d obligations UNKNOWN (e.g. %s)" % (len(unknown), unknown[0].get("property"))
         else:
             res.status = "pass"
             if u.loops and res.loop_obligations < max(1, u.expect_loop_obligations):
@@ -327,7 +331,7 @@ def run_unit(u: Unit, char: str, workroot: str, canary=False, keep=False, repo=N
     res.wall_s = time.time() - t0
     if not keep and res.status == "pass":
         shutil.rmtree(wd, ignore_errors=True)
-    else:
+    elif not keep:
         # keep only small artefacts
         for fn in ("a.gb", "b.gb"):
             try:
